@@ -82,6 +82,8 @@ type xferSpec struct {
 	SuspendTimers bool
 	WriteTimeout  time.Duration // blocking-write mode: SetWriteDeadline before each write
 	ReaderDone    func(m *Sim, sid uint16)
+	// SNAP: both sides are set up from exchanged out-of-band tokens (no handshake on the wire)
+	SNAP bool
 }
 
 type wroteMsg struct {
@@ -181,7 +183,13 @@ func xferScenario(spec *xferSpec, res *xferResult) *Scenario {
 			}
 		},
 		Body: func(m *Sim) {
-			if !m.Connect(spec.A, spec.B) {
+			if spec.SNAP {
+				m.snapConnect(spec.A, spec.B)
+				if m.Err[0] != nil || m.Err[1] != nil || m.As[0] == nil || m.As[1] == nil {
+					m.CloseBoth()
+					return
+				}
+			} else if !m.Connect(spec.A, spec.B) {
 				m.CloseBoth()
 				return
 			}
